@@ -25,7 +25,38 @@ static void *W(void *) { res->lockWrite(); enter(true); w_locked = 1; wait_until
 static void *R1(void *) { res->lockRead(); enter(false); wait_until(r1_go_unlock, 10000); leave(false); res->unlockRead(); r1_done = 1; return 0; }
 static void *R2(void *) { my_slow = 1; res->lockRead(); enter(false); usleep(20000); leave(false); res->unlockRead(); r2_done = 1; return 0; }
 static void *W2(void *) { res->lockWrite(); enter(true); w2_in = 1; wait_until(w2_go, 10000); leave(true); res->unlockWrite(); return 0; }
+static volatile int r3_in = 0, r3_go = 0, w2_done = 0, rb_in = 0;
+static void *R3(void *) { res->lockRead(); enter(false); r3_in = 1; wait_until(r3_go, 10000); leave(false); res->unlockRead(); return 0; }
+static void *W2c(void *) { res->lockWrite(); enter(true); w2_in = 1; usleep(50000); leave(true); res->unlockWrite(); w2_done = 1; return 0; }
+static void *RH(void *) { res->lockRead(); enter(false); w_locked = 1; wait_until(w_go_unlock, 10000); leave(false); res->unlockRead(); return 0; }
+static void *RB(void *) { res->lockRead(); rb_in = 1; enter(false); usleep(20000); leave(false); res->unlockRead(); return 0; }
+// Scenario C: W holds; R1 parks; W2 parks; R3 parks behind the writer; W unlocks.  Violation: W2 inside with a reader.
+static int scenario_c() {
+    pthread_t tw, t1, t2, t3;
+    pthread_create(&tw, 0, W, 0); if (!wait_until(w_locked)) return 2;
+    pthread_create(&t1, 0, R1, 0); if (!wait_parked(1)) return 2;
+    pthread_create(&t2, 0, W2c, 0); if (!wait_parked(2)) return 2;
+    pthread_create(&t3, 0, R3, 0); if (!wait_parked(3)) return 2;
+    w_go_unlock = 1; usleep(200000);
+    if (overlap) { puts("CONFIRMED: a writer queued between two readers is inside the lock together with a reader"); fflush(stdout); _exit(1); }
+    r1_go_unlock = 1; r3_go = 1; usleep(300000);
+    if (overlap) { puts("CONFIRMED: a writer is inside the lock together with a reader"); fflush(stdout); _exit(1); }
+    puts("NOT-REPRODUCED"); fflush(stdout); _exit(0);
+}
+// Scenario D: a reader holds; a writer parks; a later reader must queue behind the writer (no overtaking).
+static int scenario_d() {
+    pthread_t th, tw, tr;
+    pthread_create(&th, 0, RH, 0); if (!wait_until(w_locked)) return 2;
+    pthread_create(&tw, 0, W2c, 0); if (!wait_parked(1)) return 2;
+    pthread_create(&tr, 0, RB, 0);
+    usleep(200000);
+    if (rb_in && !w2_done) { puts("CONFIRMED: a read request issued after a writer had parked was granted before that writer"); fflush(stdout); _exit(1); }
+    w_go_unlock = 1; usleep(300000);
+    puts("NOT-REPRODUCED"); fflush(stdout); _exit(0);
+}
 int main(int argc, char **argv) {
+    if (argc > 1 && !strcmp(argv[1], "C")) { res = new Resource(); return scenario_c(); }
+    if (argc > 1 && !strcmp(argv[1], "D")) { res = new Resource(); return scenario_d(); }
     bool withW2 = argc > 1 && !strcmp(argv[1], "A");
     res = new Resource(); verif_shim::after_wakeup() = hook;
     pthread_t tw, t1, t2, t3;
